@@ -748,6 +748,9 @@ class C18Engine(Engine):
         images = {f"im{i}": self._image_spec(wl) for i in range(cfg.randint(2, 4))}
         corrs = {f"co{i}": self._corr_spec(wl) for i in range(cfg.choice([0, 1, 2, 2]))}
         paths = ["a.npz", "b", "sub/c.npz", "sub/deep/d", "e.v1.npz"][: cfg.randint(2, 5)]
+        if cfg.random() < 0.3:
+            # unusual but legal file names: blanks, non-ASCII, several dots, a leading dot, an upper-case suffix
+            paths += cfg.sample(["my image.npz", "bild_\u00fc\u00f1.npz", "x.tar.gz.npz", ".hidden.npz", "UPPER.NPZ", "dir with space/f.npz"], 2)
         cpaths = ["k0.npz", "corr/k1.npz"]
         prog = []
         n = cfg.randint(3, 16 if tier == "thorough" else 12)
@@ -757,13 +760,14 @@ class C18Engine(Engine):
                               [6, 7, 2, 2, 3 if corrs else 0, 4 if corrs else 0, 1, 1])[0]
             if kind == "save":
                 p = wl.choice(paths)
-                prog.append({"op": "save", "img": wl.choice(sorted(images)), "path": p, "pathlib": wl.choice([None, None, True])})
+                prog.append({"op": "save", "img": wl.choice(sorted(images)), "path": p, "pathlib": wl.choice([None, None, True]),
+                             "relative": wl.random() < 0.2})  # relative to the working directory (= the scratch root)
                 saved.append(p)
             elif kind == "npy":
                 prog.append({"op": "npy", "img": wl.choice(sorted(images)), "path": wl.choice(["arr0.npy", "sub/arr1.npy"])})
             elif kind == "read":
                 p = wl.choice(saved) if saved and wl.random() < 0.9 else wl.choice(paths)
-                prog.append({"op": "read", "path": p, "via": wl.choice(["imread", "imread", "npz"])})
+                prog.append({"op": "read", "path": p, "via": wl.choice(["imread", "imread", "npz"]), "relative": wl.random() < 0.2})
             elif kind == "bytes":
                 chan = wl.choice([None, 1, 3])
                 shape = [wl.randint(1, 6), wl.randint(1, 6)] + ([chan] if chan else [])
